@@ -4,14 +4,18 @@
     Operation [99] is the final drop of the object: its result is what the harness measures
     while dropping ([keys dropped; values dropped; double drops; live tracked objects; live
     heap blocks allocated by the object; poison damage]). *)
-From VF Require Import Base Iter Enc Lru LruStep Slru TwoQ Arc CacheStep.
+From VF Require Import Base Iter Enc Lru LruStep Slru TwoQ Arc CacheStep Tiny WTiny Sampled TinyStep.
+Open Scope Z_scope.
 
 Inductive ustate :=
 | UDead
 | ULru (s : lru)
 | USlru (s : slru)
 | UTwoQ (s : twoq)
-| UArc (s : arc).
+| UArc (s : arc)
+| UWTiny (s : wtiny)
+| UTiny (s : tinylfu)
+| USampled (s : sampled).
 
 Definition uinit (kind : Z) (cfg : list Z) : option ustate :=
   match kind with
@@ -19,6 +23,9 @@ Definition uinit (kind : Z) (cfg : list Z) : option ustate :=
   | 1 => option_map USlru (sinit cfg)
   | 2 => option_map UTwoQ (qinit cfg)
   | 3 => option_map UArc (ainit cfg)
+  | 4 => option_map UWTiny (winit cfg)
+  | 5 => option_map UTiny (tinit cfg)
+  | 6 => option_map USampled (saminit cfg)
   | _ => None
   end.
 
@@ -30,6 +37,9 @@ Definition uretained (s : ustate) : nat :=
   | USlru s => (llen (prob s) + llen (prot s))%nat
   | UTwoQ s => (llen (recent s) + llen (frequent s) + llen (ghost s))%nat
   | UArc s => (llen (t1 s) + llen (b1 s) + llen (t2 s) + llen (b2 s))%nat
+  | UWTiny s => wlen s
+  | UTiny _ => 0%nat
+  | USampled _ => 0%nat
   end.
 
 Definition drop_out (n : nat) : list Z := [zn n; zn n; 0; 0; 0; 0].
@@ -50,6 +60,9 @@ Definition ustep (s : ustate) (op : list Z) : option (ustate * list Z * list Z) 
     | USlru s => lift USlru (sstep_enc s op)
     | UTwoQ s => lift UTwoQ (qstep_enc s op)
     | UArc s => lift UArc (astep_enc s op)
+    | UWTiny s => lift UWTiny (wstep_enc s op)
+    | UTiny s => lift UTiny (tstep_enc s op)
+    | USampled s => lift USampled (samstep_enc s op)
     end
   end.
 
@@ -60,4 +73,7 @@ Definition usnap (s : ustate) : list Z :=
   | USlru s => ssnap s
   | UTwoQ s => qsnap s
   | UArc s => asnap s
+  | UWTiny s => wsnap s
+  | UTiny s => tsnap s
+  | USampled s => samsnap s
   end.
